@@ -184,6 +184,19 @@ pub struct Scenario {
     /// every k-th round every live task is polled although nothing woke it (0 = never)
     pub spurious: u8,
     pub udp: Vec<UdpOp>,
+    /// cross-host topologies, own wire only: before the judged connection is opened, the client host opens
+    /// a TCP connection to itself through the loopback address and keeps writing on it, so that one egress
+    /// pass of that host segments data for two interfaces with different MTUs
+    #[serde(default)]
+    pub lo_side: Option<LoSide>,
+}
+
+#[derive(Clone, Debug, PartialEq, Eq, Serialize, Deserialize)]
+pub struct LoSide {
+    pub chunk: u32,
+    pub chunks: u8,
+    /// rounds between two chunks
+    pub gap: u8,
 }
 
 /// A workload in which no side waits for something the other side never does.
@@ -349,6 +362,7 @@ pub struct Shared {
     pub writer_done: [Gate; 2],
     /// opened when the reader of a `Close::DropAll` side has consumed everything the peer sends (or failed)
     pub consumed: [Gate; 2],
+    pub lo_side: Option<LoSide>,
     /// the wire has handed a FIN to this side
     pub fin_delivered: [std::cell::Cell<bool>; 2],
     pub round: std::cell::Cell<u32>,
@@ -564,7 +578,49 @@ impl Shared {
 // ------------------------------------------------------------------------------------------------
 // application programs (the only stubs: plain async code over the shim types)
 
+/// The loopback side connection of the client host (see `Scenario::lo_side`): set up before the judged
+/// connection, so that its sockets come first in the host's socket table.
+async fn lo_setup(sh: &Rc<Shared>, lo: LoSide, v6: bool) {
+    let ip: IpAddr = if v6 { IpAddr::V6(Ipv6Addr::LOCALHOST) } else { IpAddr::V4(Ipv4Addr::LOCALHOST) };
+    let Ok(l) = TcpListener::bind(SocketAddr::new(ip, PORT + 1)).await else { return };
+    let (c, a) = tokio::join!(TcpStream::connect(SocketAddr::new(ip, PORT + 1)), l.accept());
+    let (Ok(mut c), Ok((mut s, _))) = (c, a) else { return };
+    sh.obs.borrow_mut().probes.inc("loopback_side_connection_on_the_client_host");
+    let hosts = sh.hosts.expect("own executor");
+    let sh2 = sh.clone();
+    sh.spawner.spawn(hosts[CLIENT], "c-lo-wr", async move {
+        use tokio::io::AsyncWriteExt;
+        // (small buffer caps make a loopback transfer slow as well: keep it to a few windows)
+        let data = vec![0xa5u8; lo.chunk.min(4 * sh2.cfg.send_cap.min(sh2.cfg.recv_cap)).max(1) as usize];
+        for _ in 0..lo.chunks {
+            if c.write_all(&data).await.is_err() {
+                return;
+            }
+            for _ in 0..lo.gap {
+                sh2.yield_round().await;
+            }
+        }
+        let _ = c.shutdown().await;
+    });
+    let sh3 = sh.clone();
+    sh.spawner.spawn(hosts[CLIENT], "c-lo-rd", async move {
+        use tokio::io::AsyncReadExt;
+        let mut b = vec![0u8; 4096];
+        while let Ok(n) = s.read(&mut b).await {
+            if n == 0 {
+                break;
+            }
+            // the side transfer is progress too: the run is not stalled while it moves
+            sh3.obs.borrow_mut().progress += 1;
+        }
+        drop(l);
+    });
+}
+
 async fn client_main(sh: Rc<Shared>, addr: SocketAddr) {
+    if let Some(lo) = sh.lo_side.clone() {
+        lo_setup(&sh, lo, addr.is_ipv6()).await;
+    }
     match TcpStream::connect(addr).await {
         Ok(s) => {
             sh.on_connected(CLIENT, &s);
@@ -896,6 +952,7 @@ pub fn run_conn(sc: &Scenario, keep: bool) -> Outcome {
         first_byte: [Gate::default(), Gate::default()],
         writer_done: [Gate::default(), Gate::default()],
         consumed: [Gate::default(), Gate::default()],
+        lo_side: if sc.topo.cross() { sc.lo_side.clone() } else { None },
         fin_delivered: Default::default(),
         round: Default::default(),
         sleepers: Default::default(),
